@@ -146,7 +146,7 @@ CHECKS = {
          'statements), END...; each collected variable defined once; the main loop (whenever #t (when (&& c...) action)...) visits every index from the current one to the last '
          'once, ascending, statements in source order, and restores the index. The expression rules of the grammar are modelled as a lexer and a parser with one function per level (WawkParse.v) and '
          'every expression tree (numbers, symbols, strings, calls, !, the 12 binary operators, any depth) written with parentheses only where the levels require them parses back to that tree: binary '
-         'operators group left to right, * / over + -, comparisons below, && over || (WawkParseProofs.v), and the text of every well-formed tree (one space after each token) is read by lexer, parser and transformer as that tree (WawkLexProofs.v); the model parser is tied to the Earley parser by the differential check on generated expression texts. '
+         'operators group left to right, * / over + -, comparisons below, && over || (WawkParseProofs.v), and the text of every well-formed tree (one space after each token) is read by lexer, parser and transformer as that tree (WawkLexProofs.v); the model parser is tied to the Earley parser by the differential check on generated expression texts, and the grammar text of those rules is regenerated on every run and proved equal to the rules the model implements (WawkGrammarTies.v). '
          'PARTIAL: the statement syntax of the Earley parser is not modelled: decided by the '
          'differential check against an AWK-style reference evaluation; -o by the reader round trip.' + DIFF,
     technique='Coq proof (emit structure, main-loop refinement, expression-parser round trip) + differential correspondence + AWK-style reference evaluator'),
